@@ -1773,7 +1773,9 @@ class Engine:
 
   def _lvalue_key(self, e, st, func):
     if isinstance(e, ast.Name):
-      return e.id
+      # only locals carry path facts: a module-level name must not become a
+      # (conditionally bound) local of the state
+      return e.id if e.id in st.vars else None
     if isinstance(e, ast.Attribute) and isinstance(e.value, ast.Name):
       base = st.vars.get(e.value.id)
       if isinstance(base, V) and base.obj is not None:
